@@ -607,6 +607,37 @@ let run_sx (_dump : Stdlib.String.t list) (hist : Stdlib.String.t) (out : Buffer
   | Model_panic s -> Buffer.add_string out (Printf.sprintf "PANIC sx: %s\n" s)
   | Model_fuel -> Buffer.add_string out "PANIC sx: OUT-OF-FUEL\n")
 
+
+(* ---------- C16: template expansion ---------- *)
+let rec tm_tree (b : Buffer.t) (e : sexpr) =
+  match e with
+  | Atom (t, _) -> Buffer.add_string b (Printf.sprintf "A:%s " (hex_of_bytes t))
+  | SList (l, _) -> Buffer.add_string b "( "; List.iter (tm_tree b) l; Buffer.add_string b ") "
+let tm_class = function
+  | TENoName -> "no-name" | TENameNotString -> "name-not-string" | TEDuplicate -> "duplicate" | TENoVars -> "no-vars"
+  | TEVarsNotList -> "vars-not-list" | TEVarNotString -> "var-not-string" | TENested -> "nested"
+  | TEUnknownInBody -> "unknown-in-body" | TECallNoName -> "call-no-name" | TECallNameNotString -> "name-not-string"
+  | TECallUnknown -> "call-unknown" | TECallArity -> "call-arity" | TECondArg1 -> "cond-arg1" | TECondArg1Type -> "cond-type"
+  | TECondArg2 -> "cond-arg2" | TECondArg2Type -> "cond-type" | TETopAtom -> "top-atom"
+let run_tmpl (_dump : Stdlib.String.t list) (hist : Stdlib.String.t) (out : Buffer.t) =
+  let t = mk_toks hist in
+  ignore (next t);
+  let text = bytes_of_hex (if t.pos < Array.length t.arr then next t else "") in
+  (try
+    (match unwrap (parse_ true text) with
+     | Inl _ -> Buffer.add_string out "T LEXERR\n"
+     | Inr (tops, _) ->
+       (match unwrap (expand_templates (nat_of_int 400) tops) with
+        | Inl e -> Buffer.add_string out (Printf.sprintf "T ERR %s\n" (tm_class e))
+        | Inr tops' ->
+          let b = Buffer.create 256 in
+          Buffer.add_string b "T OK ";
+          List.iter (fun (l, s) -> tm_tree b (SList (l, s))) tops';
+          Buffer.add_string out (Buffer.contents b); Buffer.add_char out '\n'))
+  with
+  | Model_panic s -> Buffer.add_string out (Printf.sprintf "PANIC tmpl: %s\n" s)
+  | Model_fuel -> Buffer.add_string out "PANIC tmpl: OUT-OF-FUEL\n")
+
 (* ---------- C11 key tables ---------- *)
 let hex_decode (h : Stdlib.String.t) : Stdlib.String.t =
   String.init (String.length h / 2) (fun i -> Char.chr (int_of_string ("0x" ^ String.sub h (2 * i) 2)))
@@ -644,6 +675,7 @@ let () =
   | _ :: "ovr" :: path :: _ -> sim_main run_ovr path
   | _ :: "pinfo" :: path :: _ -> sim_main run_seqtab path
   | _ :: "sx" :: path :: _ -> sim_main run_sx path
+  | _ :: "tmpl" :: path :: _ -> sim_main run_tmpl path
   | _ :: "keys" :: _ -> keys_main ()
   | _ :: "swev" :: path :: _ -> swev_main path
   | _ -> prerr_endline "usage: driver <lsim FILE|keys>"; exit 2
